@@ -64,12 +64,34 @@ def run(chk):
                         ms=[2, 4, 16], prop_tags=tags, seed=chk.seed + 3)
     joinfam.random_join(chk, [k + "!tiny" for k in KINDS], "tiny-weights", runs=2 if quick else 8, length=30, nitems=20,
                         ms=[2, 4, 16], prop_tags=tags, seed=chk.seed + 4)
+    # fixed one-entry sets at the low end of the weight range: no position may keep the placeholder
+    out = os.path.join(chk.wd, "tinyprobe.json")
+    harness("sk", ["tinyprobe", "out=" + out])
+    for c in json.load(open(out))["cases"]:
+        chk.add("evaluations", 1)
+        t = dict(kind=c["kind"], op="probe", where="tiny-weights", fullkind=c["kind"] + "!tiny", tiny_weight=bool(c["tiny"]))
+        if c.get("panic"):
+            chk.violation(dict(t, symptom="panic"), dict(kind="tiny-probe", case=c))
+        elif c["placeholder_positions"] or c["foreign_positions"]:
+            chk.violation(dict(t, symptom="placeholder" if c["placeholder_positions"] else "foreign"), dict(kind="tiny-probe", case=c))
     joinfam.big_join(chk, ["pmh"])
     chk.cov["explanation"] = "design-level exhaustive at small sizes; code-level all histories of the stated shape + sampled streams"
 
 
 def replay(chk, path):
     build_harness("sk")
+    sc = json.load(open(path))["scenario"]
+    if sc.get("kind") == "tiny-probe":
+        out = os.path.join(chk.wd, "tinyprobe_replay.json")
+        harness("sk", ["tinyprobe", "out=" + out])
+        c0 = sc["case"]
+        bad = [c for c in json.load(open(out))["cases"] if (c["kind"], c["m"], c["weight"]) == (c0["kind"], c0["m"], c0["weight"])
+               and (c.get("panic") or c.get("placeholder_positions") or c.get("foreign_positions"))]
+        for c in bad:
+            log(json.dumps(c))
+        if bad:
+            log("VIOLATION property=C02 replay=%s" % path)
+        return 1 if bad else 0
     r = joinfam.replay_one(chk, path, "C02")
     return 2 if r is None else r
 
